@@ -534,3 +534,5 @@ V("c10-pop-hook-noop", "C10", "rich/console.py", "        self._render_hooks.pop
 V("c02-line-position-in-chars", "C02", "rich/_wrap.py", "                    if start:\n                        append(start)\n                    line_position = _cell_len(word)\n", "                    if start:\n                        append(start)\n                    line_position = len(word)\n", "R2.4")
 V("c02-line-position-in-chars-2", "C02", "rich/_wrap.py", "            elif line_position and start:\n                append(start)\n                line_position = _cell_len(word)\n", "            elif line_position and start:\n                append(start)\n                line_position = len(word)\n", "R2.4")
 V("c10-live-transient-negated", "C10", "rich/live.py", "            if self.transient:\n                self.console.control(self._live_render.restore_cursor())\n", "            if not self.transient:\n                self.console.control(self._live_render.restore_cursor())\n", "R10.18")
+V("c10-liverender-height-min", "C10", "rich/live_render.py", "                max(height1, height2),\n", "                min(height1, height2),\n", "R10.2")
+V("c05-align-no-truncate", "C05", TX7, "        self.truncate(width)\n        excess_space = width - cell_len(self.plain)\n", "        excess_space = width - cell_len(self.plain)\n", "R5.8")
